@@ -90,6 +90,18 @@ CHECKS["C04"] = ("translation_validation",
     "translation validation with a Coq-verified validator (reflection theorem) against a proved-correct reference "
     "canonical LR(1) construction, evaluated by vm_compute on every real table", "DESIGN.md §6 C04, reports/C04.md")
 
+CHECKS["C06"] = ("proof",
+    "Coq theorems over all terminal lists, priorities, match functions and flags: sort_stable_spec / sort_unique / "
+    "sort_flags_spec (the model of sort_terminals is the unique stable sort by the key, with exactly the documented "
+    "finish flags), lexer_lr_spec / lexer_glr_spec / lexer_lr_table (what TokenIterator + the parser-side filters yield "
+    "equals the documented selection rule `select`, under the measured side conditions str_len_ok_b and range_ok_b), "
+    "strlen_range_refuted (the sort-key range condition is necessary: recorded finding). sorted_ok_b is evaluated by the "
+    "kernel on the sorted_terminals of every real dump (exact equality incl. finish flags); for random overlapping "
+    "string/regex terminal sets x flags x {LR, GLR} every token the real parser shifted (and the set of GLR first tokens) "
+    "is compared with `select` on the measured match table.",
+    "machine-checked proof in Coq (lexical selection theorems) + kernel-evaluated sort correspondence on real tables + "
+    "token-by-token comparison of the real LR/GLR runtimes with the verified rule", "DESIGN.md §6 C06")
+
 PENDING_REASON = ("not yet claimed: check under construction (DESIGN.md §6 describes the planned theorem, validator and "
                   "correspondence); it is registered only once it runs end to end")
 
